@@ -20,12 +20,12 @@ RULE = ('payload {link->outside file abs/rel, link->outside dir abs/rel, danglin
         'payload {yes,no}; non-trivial = at least one deletion syscall was issued; distinct = (payload, name, reach, command, outcome)')
 PAYLOADS = ['lf-abs', 'lf-rel', 'ld-abs', 'ld-rel', 'dang', 'tree1', 'tree2', 'tree3', 'tree000', 'file']
 NAMES = ['plain', 'dbl', 'newline']
-REACH = ['direct', 'xdg-link', 'alt-link', 'info-link']
-CMDS = ['empty', 'empty0', 'rm-star', 'rm-exact']
+REACH = ['direct', 'xdg-link', 'alt-link', 'info-link', 'home-named-info']
+CMDS = ['empty', 'empty0', 'rm-star', 'rm-exact', 'empty-v', 'empty0-v']
 
 
 def dimensions(tier):
-    return {'payload': len(PAYLOADS), 'info_name': 3, 'reach': 4, 'command': 4, 'orphan_link': 2}
+    return {'payload': len(PAYLOADS), 'info_name': 3, 'reach': 5, 'command': 6, 'orphan_link': 2}
 
 
 def cases(tier):
@@ -74,6 +74,12 @@ def run_case(c):
         env['XDG_DATA_HOME'] = '/home/u/xdg'
         td, phys = '/home/u/xdg/Trash', '/home/u/realxdg/Trash'
         rel = False
+    elif c['reach'] == 'home-named-info':
+        env['HOME'] = '/home/info'
+        td = phys = '/home/info/.local/share/Trash'
+        rel = False
+        W.dir('/home/files').file('/home/files/victim', 'decoy: sibling directory called files\n').file('/home/files/bystander', 'decoy\n')
+        W.dir('/home/info/files').file('/home/info/files/victim', 'decoy 2\n')
     elif c['reach'] == 'info-link':
         td = phys = scen.HOME_TRASH
         rel = False
@@ -102,7 +108,8 @@ def run_case(c):
         scen.add_trashed(W, phys, 'bystander', '/home/u/w/bystander' if not rel else 'w/bystander', '2024-05-05T00:00:00')
     if c['orphan']:
         W.link(phys + '/files/orphan-link', '/outside/dir')
-    argv = {'empty': ['trash-empty'], 'empty0': ['trash-empty', '0'], 'rm-star': ['trash-rm', '*'], 'rm-exact': ['trash-rm', 'orig-name']}[c['cmd']]
+    argv = {'empty': ['trash-empty'], 'empty0': ['trash-empty', '0'], 'rm-star': ['trash-rm', '*'], 'rm-exact': ['trash-rm', 'orig-name'],
+            'empty-v': ['trash-empty', '-v'], 'empty0-v': ['trash-empty', '-v', '0']}[c['cmd']]
     with cell.Sandbox(W.spec()) as sb:
         before = sb.snapshot()
         r = sb.run(argv, env=env, cwd='/', now='2024-05-06T07:08:09', plan={'resolve': 'all'})
